@@ -21,7 +21,7 @@ var Keys = []string{"k1", "k2", "k3", "k4", ""}
 var Values = []string{
 	"", "a", "abc", "hello world", "007", "7", "-0", "+5", "1e3", "1.50", "1.5", "0.25", "-2.75",
 	"Inf", "-inf", "+Inf", "9223372036854775807", "9223372036854775808", "-9223372036854775808",
-	"12345678901234567890", "a\r\nb", "\x00\xff", "\xc3\xbcn\xc3\xaf", "3.0", ".5", "5.", "1e", "0x10",
+	"12345678901234567890", "9007199254740993", "1234567890123456789", "-9007199254740993", "a\r\nb", "\x00\xff", "\xc3\xbcn\xc3\xaf", "3.0", ".5", "5.", "1e", "0x10",
 	"1_000", "123456.75", "1234567.25", "0.00001", "0.0001", "1e-7", "1E2", "10", "-1", "0", "42",
 	"1p3", "0.12345678901234567", "1e400", "nan", "infinity", " 1", "1 ",
 }
